@@ -1,9 +1,9 @@
 package c19
 
 import (
-	"sort"
 	"fmt"
 	"math/rand"
+	"sort"
 	"strings"
 
 	"github.com/la5nta/wl2k-go/transport"
